@@ -13,8 +13,8 @@ namespace Chess.Props
 /-- C02 (one move): for every rules-level move `m` that has the shape of a legal move in a well-formed position
     (`StepOK`: decidable, evaluated on EVERY legal move of every visited position by the correspondence run), the model's
     do_move of the engine's code for `m` yields exactly the position the rules prescribe — all six FEN fields — for every
-    Zobrist table.  Standing assumption: the half-move clock is below 255 (it is a uint8_t in the engine). -/
-theorem C02_step (T : ZTable) (p : Position) (m : Spec.SMove) (ok : StepOK (absPos p) m) (hp : PlyOK p) (hh : p.halfmove < 255) :
+    Zobrist table.  Standing assumption: the half-move clock is below 65535 (it is a uint16_t in the engine). -/
+theorem C02_step (T : ZTable) (p : Position) (m : Spec.SMove) (ok : StepOK (absPos p) m) (hp : PlyOK p) (hh : p.halfmove < 65535) :
     absPos (doMove T p (codeOf (absPos p) m)).1 = Spec.apply (absPos p) m :=
   (refine_step T p m ok hp hh).1
 
@@ -26,7 +26,7 @@ def replayModel (T : ZTable) : Position → List Spec.SMove → Position
 /-- the hypotheses along a replay, stated on the RULES side only -/
 def ReplayOK : Spec.SPos → List Spec.SMove → Prop
   | _, [] => True
-  | s, m :: ms => StepOK s m ∧ s.halfmove < 255 ∧ ReplayOK (Spec.apply s m) ms
+  | s, m :: ms => StepOK s m ∧ s.halfmove < 65535 ∧ ReplayOK (Spec.apply s m) ms
 
 /-- C02 (sequences of any length) -/
 theorem C02_replay (T : ZTable) (ms : List Spec.SMove) : ∀ (p : Position), PlyOK p → ReplayOK (absPos p) ms →
@@ -36,14 +36,14 @@ theorem C02_replay (T : ZTable) (ms : List Spec.SMove) : ∀ (p : Position), Ply
   | cons m ms ih =>
     intro p hp h
     obtain ⟨h1, h2, h3⟩ := h
-    have hh : p.halfmove < 255 := h2
+    have hh : p.halfmove < 65535 := h2
     obtain ⟨e, hp'⟩ := refine_step T p m h1 hp hh
     show absPos (replayModel T (doMove T p (codeOf (absPos p) m)).1 ms) = ms.foldl Spec.apply (Spec.apply (absPos p) m)
     rw [← e]
     exact ih _ hp' (by rw [e]; exact h3)
 
 /-- the clauses the property names, read off the rules: castling does not reset the clock -/
-theorem C02_castling_clock (T : ZTable) (p : Position) (m : Spec.SMove) (ok : StepOK (absPos p) m) (hp : PlyOK p) (hh : p.halfmove < 255)
+theorem C02_castling_clock (T : ZTable) (p : Position) (m : Spec.SMove) (ok : StepOK (absPos p) m) (hp : PlyOK p) (hh : p.halfmove < 65535)
     (hc : kindOf (gd p.board m.src) = KING ∧ (m.dst = m.src + 2 ∨ m.dst + 2 = m.src)) :
     (doMove T p (codeOf (absPos p) m)).1.halfmove = p.halfmove + 1 := by
   have h := congrArg Spec.SPos.halfmove (C02_step T p m ok hp hh)
@@ -70,7 +70,7 @@ def startBoard : List Nat :=
   [4, 2, 3, 5, 6, 3, 2, 4, 1, 1, 1, 1, 1, 1, 1, 1] ++ List.replicate 32 0 ++ [7, 7, 7, 7, 7, 7, 7, 7, 10, 8, 9, 11, 12, 9, 8, 10]
 def startModel : Position := { side := 0, halfmove := 0, ply := 1, board := startBoard, castling := 15, ep := 64, hash := {}, history := [] }
 
-example : StepOK (absPos startModel) ⟨12, 28, 0⟩ ∧ PlyOK startModel ∧ startModel.halfmove < 255 := by
+example : StepOK (absPos startModel) ⟨12, 28, 0⟩ ∧ PlyOK startModel ∧ startModel.halfmove < 65535 := by
   refine ⟨⟨by decide, by decide, by decide, by decide, by decide, by decide, by decide, by decide, by decide, by decide, by decide, by decide, by decide⟩, by decide, by decide⟩
 
 end Chess.Props
